@@ -4,6 +4,7 @@ use ivp::prelude::*;
 
 #[derive(Clone, Copy, Debug, PartialEq)]
 pub enum Kind {
+    Huge,       // y1' = 1e308, y2' = 1e300 t: finite right-hand side, the solution overflows
     Harmonic,   // y1' = y2, y2' = -y1
     Logistic,   // y' = y (1 - y)
     Decay3,     // y_i' = -r_i y_i, r = (0.5, 2, 7)
@@ -49,7 +50,7 @@ impl Prob {
     pub fn n(&self) -> usize { self.n0() * self.copies }
     pub fn n0(&self) -> usize {
         match self.kind {
-            Kind::Harmonic | Kind::VdP | Kind::Mixed | Kind::Stiff | Kind::Const | Kind::VdPStiff | Kind::Slow => 2,
+            Kind::Harmonic | Kind::VdP | Kind::Mixed | Kind::Stiff | Kind::Const | Kind::VdPStiff | Kind::Slow | Kind::Huge => 2,
             Kind::Decay3 | Kind::Robertson => 3,
             _ => 1,
         }
@@ -69,6 +70,7 @@ impl Prob {
             Kind::Stiff => vec![1.0, 1.0],
             Kind::Blowup => vec![1.0],
             Kind::Const => vec![0.0, 1.0],
+            Kind::Huge => vec![0.0, 1.0],
             Kind::VdPStiff => vec![2.0, 0.0],
             Kind::Robertson => vec![1.0, 0.0, 0.0],
             Kind::Slow => vec![1.0, 2.0],
@@ -99,6 +101,7 @@ impl Prob {
             Kind::Stiff => { d[0] = -1000.0 * (y[0] - t.cos()) - t.sin(); d[1] = -y[1]; }
             Kind::Blowup => { d[0] = y[0] * y[0]; }
             Kind::Const => { d[0] = 1.0; d[1] = -2.0; }
+            Kind::Huge => { d[0] = 1e308; d[1] = 1e300 * t; }
             Kind::VdPStiff => { d[0] = y[1]; d[1] = 1000.0 * (1.0 - y[0] * y[0]) * y[1] - y[0]; }
             Kind::Slow => { d[0] = -0.01 * y[0]; d[1] = -0.01 * y[1]; }
             Kind::Robertson => {
@@ -146,6 +149,7 @@ impl Prob {
             Kind::Stiff => { j[(0, 0)] = -1000.0; j[(0, 1)] = 0.0; j[(1, 0)] = 0.0; j[(1, 1)] = -1.0; }
             Kind::Blowup => { j[(0, 0)] = 2.0 * y[0]; }
             Kind::Const => { j[(0, 0)] = 0.0; j[(0, 1)] = 0.0; j[(1, 0)] = 0.0; j[(1, 1)] = 0.0; }
+            Kind::Huge => { j[(0, 0)] = 0.0; j[(0, 1)] = 0.0; j[(1, 0)] = 0.0; j[(1, 1)] = 0.0; }
             Kind::VdPStiff => { j[(0, 0)] = 0.0; j[(0, 1)] = 1.0; j[(1, 0)] = -2000.0 * y[0] * y[1] - 1.0; j[(1, 1)] = 1000.0 * (1.0 - y[0] * y[0]); }
             Kind::Slow => { j[(0, 0)] = -0.01; j[(0, 1)] = 0.0; j[(1, 0)] = 0.0; j[(1, 1)] = -0.01; }
             Kind::Robertson => {
